@@ -233,6 +233,8 @@ class atom(boolean.AndRestriction):
         else:
             self.slot_operator = self.slot = self.subslot = self.repo_id = None
 
+        if not atom:
+            raise errors.MalformedAtom(orig_atom, "no package named")
         self.blocks = atom[0] == "!"
         if self.blocks:
             atom = atom[1:]
@@ -247,11 +249,13 @@ class atom(boolean.AndRestriction):
                 self.blocks_strongly = True
             else:
                 self.blocks_strongly = False
+            if not atom:
+                raise errors.MalformedAtom(orig_atom, "no package named")
         else:
             self.blocks_strongly = False
 
         if atom[0] in ("<", ">"):
-            if atom[1] == "=":
+            if atom[1:2] == "=":
                 self.op = atom[:2]
                 atom = atom[2:]
             else:
